@@ -312,7 +312,16 @@ func (s *c18State) check(after string) bool {
 // leaves the notification store untouched" guard and returns the result.
 func (s *c18State) deliver(i int, desc string, foreign bool, msg sdk.Msg) (chain.TxResult, bool) {
 	pre := s.c.KV(ntypes.StoreKey)
-	res := s.c.DeliverAs(i, msg)
+	var res chain.TxResult
+	if s.rc.Chance(0.04) {
+		// one transaction: the message, then a transfer of more than the signer owns; refused as a whole
+		huge, _ := sdk.NewIntFromString("1000000000000000000000000000000")
+		res = s.c.DeliverAs(i, msg, bankSend(s.c.Accs[i].Addr, s.c.Accs[(i+1)%len(s.c.Accs)].Addr, sdk.NewCoins(sdk.NewCoin("ujkl", huge))))
+		s.rc.Count("messages_in_a_transaction_that_rolls_back", 1)
+		desc += " [+ failing transfer]"
+	} else {
+		res = s.c.DeliverAs(i, msg)
+	}
 	s.rc.Logf("h=%d t=%d a%d %s -> code=%d%s", s.c.Height, s.c.Time.UnixMicro(), i, desc, res.Code, nfLogTail(res))
 	if res.Code == 1<<30 {
 		s.rc.Abort("tx could not be built: " + res.Log)
